@@ -1350,6 +1350,10 @@ def post(ctx):
     c = ctx.counters
     t = 10 if ctx.thorough else 1
     ctx.require("accepted appends", c["write-ok:appended"], 40 * t)
+    ctx.require("chains completed (read object written on)", c["chain:completed"], 25 * t)
+    for a, b, k in (("fits", "hdf5", 6), ("hdf5", "fits", 6), ("fits", "fits", 3)):
+        ctx.require(f"chain hop {a}->{b}", c[f"chain:{a}->{b}"], k * t)
+    ctx.require("chain hop fits->hdf5 of a table without reference epoch", c["chain:fits->hdf5:no-epoch"], 1 * t)
     ctx.require("replacing writes", c["write-ok:replaced"], 60 * t)
     ctx.require("refused: file exists", c["refused:exists"], 8 * t)
     ctx.require("refused: incompatible append", c["refused:incompatible"], 25 * t)
